@@ -388,3 +388,137 @@ class BatchDLComplete:
   var_types = {"res": "list[Optional[int]]"}
   feasibility = False
   props = ["C10"]
+
+
+# BatchDL's completeness, as call sites may use it (the statement of BatchDL#completeness with the ghost parameters
+# universally quantified; hypothesis = the table invariant and reduced generator coordinates on entry)
+_RED_G = "0 <= self.g[0] and self.g[0] < self.mod and 0 <= self.g[1] and self.g[1] < self.mod"
+_COMP = (f"implies(table_ok(self, self._table, self._table_size, {_E}) and {_RED_G}, "
+         "forall(k, 0, len(points), implies(points[k][0] is not None and 0 <= points[k][0] and points[k][0] < self.mod and "
+         "0 <= points[k][1] and points[k][1] < self.mod and oncv(self, points[k][0], points[k][1]) and "
+         f"exists(x, 0, n, elt(self, points[k][0], points[k][1]) == gmul(self, x, {_E})), result[k] is not None)))")
+
+
+def _expose_completeness():
+  from pyvc.contracts import REGISTRY, Clause
+  c = REGISTRY[f"{E}::EcCurve.BatchDL"]
+  cl = Clause(_COMP)
+  if c.caller_ensures is None:
+    c.caller_ensures = list(c.ensures) + list(c.defines)
+  c.caller_ensures.append(cl)
+  c.caller_assumed.add(cl.text)
+  c.proved_by_aspect[cl.text] = "EcCurve.BatchDL#completeness"
+
+
+_expose_completeness()
+
+
+_Pw = "elt(self, points[wi][0], points[wi][1])"
+_CND = "(0 <= wj and wj < len(multipliers) and multipliers[wj] == gm)"
+_K0 = "(wi + num_points * wj)"
+_GOOD = (f"(all_points[{_K0}][0] is not None and 0 <= all_points[{_K0}][0] and all_points[{_K0}][0] < self.mod and "
+         f"0 <= all_points[{_K0}][1] and all_points[{_K0}][1] < self.mod and "
+         f"oncv(self, all_points[{_K0}][0], all_points[{_K0}][1]) and "
+         f"elt(self, all_points[{_K0}][0], all_points[{_K0}][1]) == gmul(self, we, {_E}))")
+_FILL = ["len(all_points) == len(multipliers) * num_points", "num_points == len(points)",
+         "len(inverses) == len(multipliers)",
+         "forall(t, 0, len(inverses), inverses[t] * multipliers[t] == 1 + self.n * invert_k(multipliers[t], self.n))"]
+
+
+@contract(f"{E}::EcCurve.ExtendedBatchDL#completeness")
+class ExtendedBatchDLComplete:
+  """COMPLETENESS of the structured-key search, as a conditional theorem (second contract on the function): for every
+  point index wi, every position wj of the multiplier list the function builds and every e with 0 <= e < 2^32 and
+  e * G != 0: if points[wi] == (e * multipliers[wj]) * G (reduced coordinates, on the curve) and the cached table is
+  correct, then result[wi] is not None.  The argument: the transformed point all_points[wi + num * wj] is
+  inverse * P == (e + n * K e) * G == e * G because inverse * multiplier == 1 + n * K and n * G == 0; BatchDL's
+  completeness (proved under BatchDL#completeness) finds it; the value is written to slot (wi + num * wj) % num == wi.
+  WHICH multipliers the list contains (2^(8j), repeated 32-bit words) is decided by the bounded tier."""
+  params = {"points": "list[tuple[int,int]]"}
+  self_fields = dict(F, _table="dict[int,int]", _table_size="int")
+  returns = "list[Optional[int]]"
+  requires = CURVE_REQ + ["self._table_size >= 0", "wf_point(self.g) and self.g[0] is not None", _RED_G]
+  spec_axioms = ["oncv(self, self.g[0], self.g[1])", f"gmul(self, self.n, {_E}) == gzero(self)"]
+  raises = {"ArithmeticError": None, "ValueError": None}
+  ghost_params = {"wi": "int", "wj": "int", "we": "int", "gm": "int"}
+  ghost_requires = ["0 <= wi and wi < len(points)",
+                    "0 <= points[wi][0] and points[wi][0] < self.mod and 0 <= points[wi][1] and points[wi][1] < self.mod",
+                    "oncv(self, points[wi][0], points[wi][1])", "0 <= we and we < 2 ** 32", "gm >= 1",
+                    f"{_Pw} == gmul(self, we * gm, {_E})", f"gmul(self, we, {_E}) != gzero(self)",
+                    f"table_ok(self, self._table, self._table_size, {_E})"]
+  ghost_ensures = []
+  return_hints = [("C10", f"implies({_CND}, result[wi] is not None)"),
+                  # the byte-shift multipliers: every shift 8k with 8k + 32 <= bits is in the list, at position k
+                  ("C10", "forall(k, 0, len(multipliers), implies(8 * k + 32 <= bit_length(self.n), multipliers[k] == pow2(8 * k)))"),
+                  ("C10", "forall(k, 0, bit_length(self.n), implies(8 * k + 32 <= bit_length(self.n), k < len(multipliers)))")]
+  on_call = {MUL: [
+      "begin_scope",
+      f"let ON = defined('i') and defined('j') and i == wi and j == wj and {_CND}",
+      "let K = invert_k(gm, self.n) if ON else 0",
+      f"let E_ = {_E}",
+      "assert [C10] implies(ON, inverse * gm == 1 + self.n * K)",
+      "assert [C10] implies(ON, by(inverse * (we * gm) == we + self.n * (K * we), inverse * gm == 1 + self.n * K))",
+      "implies(ON, " + axg("gmul_mul", "inverse", "we * gm", "E_") + " and " + axg("gmul_add", "we", "self.n * (K * we)", "E_") +
+      " and " + axg("gmul_mul", "K * we", "self.n", "E_") + " and " + axg("gmul_zero", "K * we") + " and " +
+      axg("g_zero_r", "gmul(self, we, E_)") + ")",
+      "assert [C10] implies(ON, eltp(self, ret) == gmul(self, we, E_))",
+      "assert [C10] implies(ON, ret[0] is not None and 0 <= ret[0] and ret[0] < self.mod and 0 <= ret[1] and "
+      "ret[1] < self.mod and oncv(self, ret[0], ret[1]) and elt(self, ret[0], ret[1]) == gmul(self, we, E_))",
+      "end_scope"],
+             f"{E}::EcCurve.BatchDL": [
+      f"assert [C10] implies({_CND}, 0 <= {_K0} and {_K0} < len(all_points))",
+      f"assert [C10] implies({_CND}, ret[{_K0}] is not None)"]}
+  # loop 0 (byte shifts) is verified: position k of the list is 2^(8k), for every 8k <= bits - 32; loop 1 (repeated words)
+  # only appends (syntactic check), so that prefix survives
+  loops = {0: dict(invariant=[("C10", "j == 8 * len(multipliers) and forall(k, 0, len(multipliers), multipliers[k] == pow2(8 * k))")],
+                   types={"multipliers": "list[int]"}),
+           1: dict(abstract=True, append_only={"multipliers"}, types={"multipliers": "list[int]"}),
+           2: dict(invariant=_FILL + ["forall(t, 0, num_points * j, wf_point(all_points[t]))",
+                                      ("C10", f"implies({_CND} and j > wj, {_GOOD})")], types={"all_points": "list[point]"}),
+           3: dict(invariant=_FILL + ["forall(t, 0, num_points * j + i, wf_point(all_points[t]))",
+                                      ("C10", f"implies({_CND} and (j > wj or (j == wj and i > wi)), {_GOOD})")],
+                   types={"all_points": "list[point]"}, keep={"j", "inverse"}),
+           4: dict(invariant=["len(res) == num_points", "num_points == len(points)",
+                              ("C10", f"implies({_CND} and k > {_K0}, res[wi] is not None)")],
+                   types={"res": "list[Optional[int]]"},
+                   body_end=[("C10", f"implies({_CND}, euclid({_K0}, num_points, wi, wj))"),
+                             ("C10", f"implies({_CND}, {_K0} % num_points == wi)"),
+                             ("C10", f"implies({_CND} and k - 1 == {_K0}, discrete_logs[{_K0}] is not None)"),
+                             ("C10", f"implies({_CND} and k - 1 == {_K0}, res[wi] is not None)")])}
+  var_types = {"res": "list[Optional[int]]", "all_points": "list[point]", "multipliers": "list[int]",
+               "inverses": "list[int]"}
+  feasibility = False
+  props = ["C10"]
+
+
+bridge(f"{E}::EcCurve.Add",
+       "implies(onp(self, p) and onp(self, q), onp(self, result) and "
+       "eltp(self, result) == gadd(self, eltp(self, p), eltp(self, q)))")
+
+
+def _add_inf_clauses():
+  """Add's two infinity postconditions (proved in its value pass) made visible to callers."""
+  from pyvc.contracts import REGISTRY, Clause
+  c = REGISTRY[f"{E}::EcCurve.Add"]
+  for t in ("implies(p[0] is None, result == q)", "implies(p[0] is not None and q[0] is None, result == p)"):
+    c.caller_ensures.append(Clause(t))
+
+
+_add_inf_clauses()
+
+
+@contract(f"{E}::EcCurve.Subtract")
+class Subtract:
+  """Proved: p - q is Add(p, Negate(q)) - value level for the operands at infinity (q at infinity: p itself; p at infinity:
+  (x_q, -y_q mod p)), group view p + (-q) for on-curve operands (bridge clauses of Add and Negate assumed)."""
+  params = {"p": "point", "q": "point"}
+  self_fields = F
+  returns = "point"
+  requires = ["self.mod >= 3", "wf_point(p)", "wf_point(q)"]
+  ensures = [("C11", "wf_point(result)"),
+             ("C11", "implies(q[0] is None, result == p)"),
+             ("C11", "implies(p[0] is None and q[0] is not None, result[0] == q[0] and result[1] == (0 - q[1]) % self.mod)"),
+             ("C11", "implies(onp(self, p) and onp(self, q), onp(self, result) and "
+                     "eltp(self, result) == gadd(self, eltp(self, p), gneg(self, eltp(self, q))))")]
+  return_hints = [("C11", ax("gneg_zero", "gzero(self)"))]
+  props = ["C11"]
